@@ -920,11 +920,11 @@ def c14_transport(ctx, res):
              ["", " ", ";", "echo ;", "echo x", "exit"]]
     for si in range(n_scripts):
         if si < len(fixed):
-            scripts.append(fixed[si])
-            continue
-        k = rnd.randrange(1, 7)
-        cmds = [rnd.choice(pool) for _ in range(k)]
-        cmds.append(rnd.choice(["exit", "quit", "q", "continue", "x", "r", "s", "c", "bl", "registers", "p r0"]))
+            cmds = fixed[si]
+        else:
+            k = rnd.randrange(1, 7)
+            cmds = [rnd.choice(pool) for _ in range(k)]
+            cmds.append(rnd.choice(["exit", "quit", "q", "continue", "x", "r", "s", "c", "bl", "registers", "p r0"]))
         scripts.append(cmds)
         cmds = scripts[si]
         variants = []
